@@ -424,8 +424,11 @@ def r6(ctx):
     ok = 'self.write_tags' in calls and len(loops) == 1 and any(isinstance(c, ast.Call) and isinstance(c.func, ast.Attribute) and c.func.attr == 'write'
                                                                  and c.args and src(c.args[0]) == loops[0].target.id for c in walk_no_nested(loops[0]))
     if ok:
-        wt_line = [c.lineno for c in walk_no_nested(wp) if isinstance(c, ast.Call) and src(c.func) == 'self.write_tags'][0]
-        ok = wt_line < loops[0].lineno
+        # statement order in the body (not line numbers: statements of an inlined helper keep the lines of the helper)
+        def top_index(node):
+            return next((k for k, s_ in enumerate(wp.body) if any(x is node for x in ast.walk(s_))), None)
+        wt_call = [c for c in walk_no_nested(wp) if isinstance(c, ast.Call) and src(c.func) == 'self.write_tags'][0]
+        ok = top_index(wt_call) is not None and top_index(loops[0]) is not None and top_index(wt_call) < top_index(loops[0])
     ctx.emit('C05-R6', ok, FRAGMENT, wp, 'Fragment.write_pysam writes the tags (incl. RG) and then every non-None read of the fragment', key='fragment-write-pysam')
     mp = ctx.fn(MOLECULE, 'Molecule.write_pysam')
     ok = all(any(isinstance(c, ast.Call) and isinstance(c.func, ast.Attribute) and c.func.attr == 'write_pysam' for c in walk_no_nested(l))
